@@ -1,10 +1,14 @@
-(* core/src/language/scala.rs, function by function. Output is text (str).
+(* core/src/language/scala.rs, function by function, in the shape  emit = render . decls :
+   a DECISION layer ([sc_texp], [sc_member_of], [sc_variant_of], [sc_decl_of]) computes abstract
+   declarations from the IR; a LAYOUT layer ([sc_show], [sc_render_member], [sc_render_variant],
+   [sc_render_decl]) prints them; [sc_obs_member], [sc_obs_variant], [sc_obs] project them to the
+   language-independent observation types of Model/Lang/Decl.v.
    Scala overrides Language::generate_types (scala.rs:29): no topsort, consts are never written,
-   and the generator keeps no mutable state while printing (type_mappings is only read), so every
-   function is a plain `outcome str`. *)
+   and the generator keeps no mutable state while printing (type_mappings is only read), so the
+   monad of the decision layer is the plain `outcome`. *)
 From Coq Require Import String.
 From TS Require Import Model.Str Model.Outcome Model.Unicode Model.Types Model.Parse Model.Rename
-                       Model.TopsortAlgo Model.Topsort Model.Lang.Common.
+                       Model.TopsortAlgo Model.Topsort Model.Lang.Common Model.Lang.Decl.
 
 (* pub fields of `struct Scala` (scala.rs:16) + the text of env!("CARGO_PKG_VERSION").
    module_name is a pub field that the generator never reads. *)
@@ -70,53 +74,323 @@ Definition sc_unsigned_integer_used (pd : parsed) : bool :=
                         | RSimple _ => []
                         end) (types_in_aliases ++ types_in_structs ++ types_in_enum)).
 
+(* ---- target type expressions ----
+   Layout of a type tree.  The Scala back end builds: XName (user, builtin and container names,
+   written Name[A, B]), XOpt (Option[T]) and XRaw (a type_mappings result or a field type override,
+   printed verbatim).  XSeq / XMap / XFixed are never built by [sc_texp]; they are printed the way
+   this back end spells sequences and maps so that the function is total. *)
+Fixpoint sc_show (x : texp) : str :=
+  match x with
+  | XName n [] => n
+  | XName n args => n ++ lit "[" ++ join (lit ", ") (map sc_show args) ++ lit "]"
+  | XOpt e => lit "Option[" ++ sc_show e ++ lit "]"
+  | XRaw t => t
+  | XSeq e => lit "Vector[" ++ sc_show e ++ lit "]"
+  | XFixed es => lit "(" ++ join (lit ", ") (map sc_show es) ++ lit ")"
+  | XMap k v => lit "Map[" ++ sc_show k ++ lit ", " ++ sc_show v ++ lit "]"
+  end.
+
 Section SC.
 Variable uc : unicode.
 Variable cfg : sc_config.
 
 (* format_type / format_simple_type / format_generic_type (mod.rs:207-264 defaults, with
-   scala.rs:70 format_generic_parameters) and scala.rs:74 format_special_type.
-   generic_types is threaded through but never consulted by this back end. *)
-Fixpoint sc_format_type (generics : list str) (t : rtype) : outcome str :=
+   scala.rs:70 format_generic_parameters) and scala.rs:74 format_special_type, building a tree;
+   the text the Rust code builds is [sc_show] of it.
+   generic_types is threaded through but never consulted by this back end.
+   type_mappings is consulted for Simple and Generic ids only (never for special types); a mapped
+   generic type drops its arguments. *)
+Fixpoint sc_texp (generics : list str) (t : rtype) : outcome texp :=
   match t with
-  | RSimple id => Ok (match tmap_get (sc_type_mappings cfg) id with Some m => m | None => id end)
+  | RSimple id => Ok (match tmap_get (sc_type_mappings cfg) id with Some m => XRaw m | None => XName id [] end)
   | RGeneric id ps =>
     match tmap_get (sc_type_mappings cfg) id with
-    | Some m => Ok m
+    | Some m => Ok (XRaw m)
     | None =>
-      do parts <- (fix go (l : list rtype) : outcome (list str) :=
+      do parts <- (fix go (l : list rtype) : outcome (list texp) :=
                      match l with
                      | [] => Ok []
-                     | x :: r => do y <- sc_format_type generics x; do ys <- go r; Ok (y :: ys)
+                     | x :: r => do y <- sc_texp generics x; do ys <- go r; Ok (y :: ys)
                      end) ps;
-      Ok (id ++ sc_generic_parameters parts)
+      Ok (XName id parts)
     end
   | RVec x | RArray x _ | RSlice x =>
-    do s <- sc_format_type generics x; Ok (lit "Vector[" ++ s ++ lit "]")
-  | ROption x => do s <- sc_format_type generics x; Ok (lit "Option[" ++ s ++ lit "]")
+    do e <- sc_texp generics x; Ok (XName (lit "Vector") [e])
+  | ROption x => do e <- sc_texp generics x; Ok (XOpt e)
   | RHashMap k v =>
-    do ks <- sc_format_type generics k;
-    do vs <- sc_format_type generics v;
-    Ok (lit "Map[" ++ ks ++ lit ", " ++ vs ++ lit "]")
+    do ks <- sc_texp generics k;
+    do vs <- sc_texp generics v;
+    Ok (XName (lit "Map") [ks; vs])
   | RPrim p =>
     match p with
-    | PUnit => Ok (lit "Unit")
-    | PString | PChar => Ok (lit "String")
-    | PI8 => Ok (lit "Byte")
-    | PI16 => Ok (lit "Short")
-    | PISize | PI32 => Ok (lit "Int")
-    | PI54 | PI64 => Ok (lit "Long")
-    | PU8 => Ok (lit "UByte")
-    | PU16 => Ok (lit "UShort")
-    | PUSize | PU32 => Ok (lit "UInt")
-    | PU53 | PU64 => Ok (lit "ULong")
-    | PBool => Ok (lit "Boolean")
-    | PF32 => Ok (lit "Float")
-    | PF64 => Ok (lit "Double")
+    | PUnit => Ok (XName (lit "Unit") [])
+    | PString | PChar => Ok (XName (lit "String") [])
+    | PI8 => Ok (XName (lit "Byte") [])
+    | PI16 => Ok (XName (lit "Short") [])
+    | PISize | PI32 => Ok (XName (lit "Int") [])
+    | PI54 | PI64 => Ok (XName (lit "Long") [])
+    | PU8 => Ok (XName (lit "UByte") [])
+    | PU16 => Ok (XName (lit "UShort") [])
+    | PUSize | PU32 => Ok (XName (lit "UInt") [])
+    | PU53 | PU64 => Ok (XName (lit "ULong") [])
+    | PBool => Ok (XName (lit "Boolean") [])
+    | PF32 => Ok (XName (lit "Float") [])
+    | PF64 => Ok (XName (lit "Double") [])
     | PDateTime => Err (EUnsupportedSpecialType (prim_id PDateTime))     (* scala.rs:117 *)
     end
   end.
 
+Definition sc_format_type (generics : list str) (t : rtype) : outcome str :=
+  do x <- sc_texp generics t; Ok (sc_show x).
+
+(* ---- declarations (decisions) ---- *)
+(* what follows the type of a case-class parameter (scala.rs:381-384) *)
+Inductive sc_default :=
+| SCDefAbsent                 (* nothing *)
+| SCDefNone                   (* " = None": the Rust type is Option<_> *)
+| SCDefUnderscore.            (* " = _": serde(default) on a type that is not Option<_> *)
+
+Record sc_member := { scm_docs : list str;
+                      scm_name : str;           (* parameter name as declared (dashes already replaced) *)
+                      scm_type : texp;          (* the whole type as printed, Option[..] included *)
+                      scm_default : sc_default }.
+
+(* the parameter list of a variant's case class; `generics` are the type parameters written after
+   the case-class name, `content` the parameter name (the serde content key) *)
+Inductive sc_payload :=
+| SCPayUnit                                                                      (* case object N *)
+| SCPayTuple (generics : list str) (content : str) (ty : texp)                    (* case class N[gs](content: ty) *)
+| SCPayInner (generics : list str) (content : str) (inner : str) (args : list str). (* case class N[gs](content: inner[args]) *)
+
+Record sc_variant := { scv_docs : list str;
+                       scv_name : str;                     (* case object / case class name declared *)
+                       scv_payload : sc_payload;
+                       scv_parent : str;                   (* name written after `extends` *)
+                       scv_parent_generics : list str;     (* type arguments written after that name *)
+                       scv_wire : str }.                   (* the string serialName is bound to (printed with {:?}) *)
+
+Inductive sc_decl :=
+| SCAlias (docs : list str) (name : str) (generics : list str) (ty : texp)                 (* type N[gs] = ty *)
+| SCCaseClass (docs : list str) (name : str) (generics : list str) (ms : list sc_member)   (* case class N[gs] ( .. ) *)
+| SCEmptyClass (docs : list str) (name : str)                                              (* class N extends Serializable *)
+| SCEnum (docs : list str) (name : str) (generics : list str) (vs : list sc_variant)       (* sealed trait N[gs] + object N *)
+| SCHelperAliases (l : list (str * texp)).                                                 (* the block of `type U.. = ..` lines *)
+
+(* scala.rs:361 write_element: decisions *)
+Definition sc_member_of (generics : list str) (f : rfield) : outcome sc_member :=
+  do ty <- match type_override f Scala with
+           | Some o => Ok (XRaw o)
+           | None => sc_texp generics (fty f)
+           end;
+  Ok {| scm_docs := fcomments f;
+        scm_name := replace_char ch_dash ch_us (renamed (fid f));      (* remove_dash_from_identifier *)
+        scm_type := ty;
+        scm_default := if has_default f && negb (is_optional (fty f)) then SCDefUnderscore
+                       else if is_optional (fty f) then SCDefNone else SCDefAbsent |}.
+
+(* scala.rs:164 write_struct: decisions. A struct without fields becomes a plain class and loses
+   its generic parameters. *)
+Definition sc_class_of (s : rstruct) : outcome sc_decl :=
+  match sfields s with
+  | [] => Ok (SCEmptyClass (scomments s) (renamed (sid s)))
+  | _ =>
+    do ms <- mapM (sc_member_of (sgenerics s)) (sfields s);
+    Ok (SCCaseClass (scomments s) (renamed (sid s)) (sgenerics s) ms)
+  end.
+
+(* scala.rs:238 write_enum_variants: decisions.
+   Unit enum (scala.rs:240-256): the case object is named id.original as is, and extends the enum's
+   id.renamed without type arguments; the variant's kind is not looked at. *)
+Definition sc_variant_of_unit_enum (e : eshared) (v : rvariant) : outcome sc_variant :=
+  let sh := variant_shared v in
+  Ok {| scv_docs := vcomments sh; scv_name := original (vid sh); scv_payload := SCPayUnit;
+        scv_parent := renamed (eid e); scv_parent_generics := []; scv_wire := renamed (vid sh) |}.
+
+(* Algebraic enum (scala.rs:257-355): the parent named after `extends` is the enum's id.ORIGINAL
+   (the trait is declared under id.renamed), followed by all the enum's generic parameters. *)
+Definition sc_variant_of_algebraic (content_key : str) (e : eshared) (v : rvariant) : outcome sc_variant :=
+  let sh := variant_shared v in
+  (* scala.rs:266-281: a leading ASCII digit gets an underscore in front *)
+  let variant_name := match original (vid sh) with
+                      | c :: _ => if is_adigit c then ch_us :: original (vid sh) else original (vid sh)
+                      | [] => original (vid sh)
+                      end in
+  do payload <- match v with
+                | VUnit _ => Ok SCPayUnit
+                | VTuple t _ =>
+                  do variant_type <- sc_texp (egenerics e) t;
+                  Ok (SCPayTuple (egenerics e) content_key variant_type)
+                | VAnon fields vsh =>
+                  (* NB the class referred to is named from the enum's id.original, while write_enum
+                     (scala.rs:195) declares it from id.renamed *)
+                  Ok (SCPayInner (egenerics e) content_key
+                                 (original (eid e) ++ original (vid vsh) ++ lit "Inner")
+                                 (anon_struct_generics (egenerics e) fields))
+                end;
+  Ok {| scv_docs := vcomments sh; scv_name := variant_name; scv_payload := payload;
+        scv_parent := original (eid e); scv_parent_generics := egenerics e; scv_wire := renamed (vid sh) |}.
+
+Definition sc_variants_of (e : renum) : outcome (list sc_variant) :=
+  match e with
+  | EUnit sh => mapM (sc_variant_of_unit_enum sh) (evariants sh)
+  | EAlgebraic _ content_key sh => mapM (sc_variant_of_algebraic content_key sh) (evariants sh)
+  end.
+
+(* mod.rs:366 write_types_for_anonymous_structs with the closure of scala.rs:194: one helper class
+   per struct variant, DEFINED under <enum id.renamed><variant id.original>Inner *)
+Definition sc_inner_decls_of (e : eshared) : outcome (list sc_decl) :=
+  do dss <- mapM (fun v => match v with
+                           | VAnon fields vsh =>
+                             do d <- sc_class_of (anon_struct e (renamed (eid e) ++ original (vid vsh) ++ lit "Inner")
+                                                              (original (vid vsh)) fields);
+                             Ok [d]
+                           | _ => Ok []
+                           end) (evariants e);
+  Ok (List.concat dss).
+
+(* scala.rs:431 write_unsigned_aliases (ULong = Int is what the code says) *)
+Definition sc_unsigned_aliases : sc_decl :=
+  SCHelperAliases [(lit "UByte", XName (lit "Byte") []); (lit "UShort", XName (lit "Short") []);
+                   (lit "UInt", XName (lit "Int") []); (lit "ULong", XName (lit "Int") [])].
+
+(* write_type_alias (scala.rs:143: the name declared is id.original, not id.renamed), write_struct,
+   write_enum (scala.rs:192: helper classes first, then the trait and its companion object; both
+   arms of the match at scala.rs:204 print the same line), write_const (scala.rs:161 todo!(), never
+   called by generate_types): the declarations an item gives rise to, in output order *)
+Definition sc_decl_of (it : ritem) : outcome (list sc_decl) :=
+  match it with
+  | ItAlias a =>
+    do ty <- sc_texp (agenerics a) (atype a);
+    Ok [SCAlias (acomments a) (original (aid a)) (agenerics a) ty]
+  | ItStruct s => do d <- sc_class_of s; Ok [d]
+  | ItEnum e =>
+    let sh := enum_shared e in
+    do inner <- sc_inner_decls_of sh;
+    do vs <- sc_variants_of e;
+    Ok (inner ++ [SCEnum (ecomments sh) (renamed (eid sh)) (egenerics sh) vs])
+  | ItConst _ => Panic "scala.rs:161"
+  end.
+
+(* ---- rendering (layout only) ---- *)
+Definition sc_render_member (m : sc_member) : str :=
+  sc_write_comments 1 (scm_docs m) ++
+  [ch_tab] ++ scm_name m ++ lit ": " ++ sc_show (scm_type m) ++
+  match scm_default m with
+  | SCDefUnderscore => lit " = _"
+  | SCDefNone => lit " = None"
+  | SCDefAbsent => []
+  end.
+
+Definition sc_render_variant (v : sc_variant) : str :=
+  sc_write_comments 1 (scv_docs v) ++
+  [ch_tab] ++
+  match scv_payload v with
+  | SCPayUnit => lit "case object " ++ scv_name v
+  | SCPayTuple gs content ty =>
+    lit "case class " ++ scv_name v ++ sc_generic_parameters gs ++ lit "(" ++
+    content ++ lit ": " ++ sc_show ty ++ lit ")"
+  | SCPayInner gs content inner args =>
+    lit "case class " ++ scv_name v ++ sc_generic_parameters gs ++ lit "(" ++
+    content ++ lit ": " ++ inner ++ sc_generic_parameters args ++ lit ")"
+  end ++
+  lit " extends " ++ scv_parent v ++ sc_generic_parameters (scv_parent_generics v) ++ lit " {" ++ sc_nl ++
+  [ch_tab; ch_tab] ++ lit "val serialName: String = " ++ debug_str (scv_wire v) ++ sc_nl ++
+  [ch_tab] ++ lit "}" ++ sc_nl.
+
+Definition sc_render_decl (d : sc_decl) : str :=
+  match d with
+  | SCAlias docs name gs ty =>
+    sc_write_comments 0 docs ++
+    lit "type " ++ name ++ sc_generic_parameters gs ++ lit " = " ++ sc_show ty ++ sc_nl ++ sc_nl
+  | SCCaseClass docs name gs ms =>
+    (* split_last: every element but the last is followed by ",\n", the last by "\n" *)
+    sc_write_comments 0 docs ++
+    lit "case class " ++ name ++ sc_generic_parameters gs ++ lit " (" ++ sc_nl ++
+    join (lit "," ++ sc_nl) (map sc_render_member ms) ++ sc_nl ++
+    lit ")" ++ sc_nl ++ sc_nl
+  | SCEmptyClass docs name =>
+    sc_write_comments 0 docs ++
+    lit "class " ++ name ++ lit " extends Serializable" ++ sc_nl ++ sc_nl
+  | SCEnum docs name gs vs =>
+    sc_write_comments 0 docs ++
+    lit "sealed trait " ++ name ++ sc_generic_parameters gs ++ lit " {" ++ sc_nl ++
+    [ch_tab] ++ lit "def serialName: String" ++ sc_nl ++
+    lit "}" ++ sc_nl ++
+    lit "object " ++ name ++ lit " {" ++ sc_nl ++
+    List.concat (map sc_render_variant vs) ++
+    lit "}" ++ sc_nl ++ sc_nl
+  | SCHelperAliases l =>
+    List.concat (map (fun nt => lit "type " ++ fst nt ++ lit " = " ++ sc_show (snd nt) ++ sc_nl) l) ++ sc_nl
+  end.
+
+(* write_type_alias / write_struct / write_enum = render of the item's declarations *)
+Definition sc_write_item (it : ritem) : outcome str :=
+  do ds <- sc_decl_of it; Ok (List.concat (map sc_render_decl ds)).
+
+(* ---- observation: the language-independent view of a declaration ---- *)
+(* A Scala case-class parameter carries no key binding of its own: the JSON key is the parameter
+   name AS DECLARED (BName), i.e. with dashes already replaced by underscores, which differs from
+   the IR's renamed id when that contains a dash.
+   mb_optional: the parameter carries the idiom `Option[T] = None`, observed as the text says it:
+   the default ` = None` is present.  `T = _` (serde(default) on a non-Option type) is NOT that
+   idiom: mb_optional = false and the ` = _` stays visible only in [scm_default].
+   mb_type: the printed type; when mb_optional holds and the type is Option[T] (XOpt at the root,
+   which is always so unless a type override replaced the type by raw text), that ONE outer
+   Option[..] is stripped: `Option[String] = None` gives String, `Option[Option[A]] = None` gives
+   Option[A], an overridden `o = None` keeps XRaw o, and Option-free or ` = _` members keep
+   their whole type. *)
+Definition sc_strip_opt (t : texp) : texp := match t with XOpt e => e | _ => t end.
+Definition sc_obs_member (m : sc_member) : member :=
+  let opt := match scm_default m with SCDefNone => true | _ => false end in
+  {| mb_name := scm_name m; mb_escaped := false; mb_key := scm_name m; mb_binding := BName;
+     mb_optional := opt; mb_type := if opt then sc_strip_opt (scm_type m) else scm_type m;
+     mb_docs := scm_docs m |}.
+
+(* vd_name: the case object / case class name (with the `_` put before a leading digit);
+   vd_wire: the string serialName is bound to; vd_parent: the NAME written after `extends` (its
+   type arguments are in scv_parent_generics only).
+   A tuple variant's parameter `content: Option[T]` has no ` = None`; its optional marker is the
+   Option[..] itself: PayNewtype T true; any other type: PayNewtype ty false.
+   A struct variant refers to its helper class by the name written at the reference site. *)
+Definition sc_obs_variant (v : sc_variant) : variantd :=
+  {| vd_name := scv_name v; vd_wire := scv_wire v;
+     vd_payload := match scv_payload v with
+                   | SCPayUnit => PayUnit
+                   | SCPayTuple _ _ ty => match ty with XOpt e => PayNewtype e true | _ => PayNewtype ty false end
+                   | SCPayInner _ _ inner args => PayRef inner args
+                   end;
+     vd_parent := Some (scv_parent v); vd_docs := scv_docs v |}.
+
+Definition sc_obs (d : sc_decl) : list decl :=
+  match d with
+  | SCAlias docs name gs ty =>
+    [{| d_kind := DAlias; d_name := name; d_escaped := false; d_generics := gs; d_docs := docs; d_members := [];
+        d_variants := []; d_tag_keys := []; d_content_keys := []; d_type := Some ty; d_value := None |}]
+  | SCCaseClass docs name gs ms =>
+    [{| d_kind := DStruct; d_name := name; d_escaped := false; d_generics := gs; d_docs := docs;
+        d_members := map sc_obs_member ms;
+        d_variants := []; d_tag_keys := []; d_content_keys := []; d_type := None; d_value := None |}]
+  | SCEmptyClass docs name =>         (* no generic parameters are written for it *)
+    [{| d_kind := DStruct; d_name := name; d_escaped := false; d_generics := []; d_docs := docs; d_members := [];
+        d_variants := []; d_tag_keys := []; d_content_keys := []; d_type := None; d_value := None |}]
+  | SCEnum docs name gs vs =>
+    (* the tag key is never written; the content key is written once per tuple / struct variant,
+       as the name of the case class's only parameter *)
+    [{| d_kind := DEnum; d_name := name; d_escaped := false; d_generics := gs; d_docs := docs; d_members := [];
+        d_variants := map sc_obs_variant vs;
+        d_tag_keys := [];
+        d_content_keys := flat_map (fun v => match scv_payload v with
+                                             | SCPayUnit => []
+                                             | SCPayTuple _ content _ | SCPayInner _ content _ _ => [content]
+                                             end) vs;
+        d_type := None; d_value := None |}]
+  | SCHelperAliases l =>
+    map (fun nt => {| d_kind := DHelper; d_name := fst nt; d_escaped := false; d_generics := []; d_docs := [];
+                      d_members := []; d_variants := []; d_tag_keys := []; d_content_keys := [];
+                      d_type := Some (snd nt); d_value := None |}) l
+  end.
+
+(* ---- the file ---- *)
 (* scala.rs:124 begin_file. The header is written before the panic, but a panic loses the output. *)
 Definition sc_begin_file : outcome str :=
   let header := if sc_no_version_header cfg then []
@@ -131,104 +405,6 @@ Definition sc_begin_file : outcome str :=
         | Some (parent, _) => lit "package " ++ parent ++ sc_nl ++ sc_nl
         end)
   end.
-
-(* scala.rs:143 write_type_alias (the name printed is id.original, not id.renamed) *)
-Definition sc_write_type_alias (a : ralias) : outcome str :=
-  do ty <- sc_format_type (agenerics a) (atype a);
-  Ok (sc_write_comments 0 (acomments a) ++
-      lit "type " ++ original (aid a) ++ sc_generic_parameters (agenerics a) ++ lit " = " ++ ty ++
-      sc_nl ++ sc_nl).
-
-(* scala.rs:361 write_element *)
-Definition sc_write_element (generics : list str) (f : rfield) : outcome str :=
-  do ty <- match type_override f Scala with
-           | Some o => Ok o
-           | None => sc_format_type generics (fty f)
-           end;
-  Ok (sc_write_comments 1 (fcomments f) ++
-      [ch_tab] ++ replace_char ch_dash ch_us (renamed (fid f)) (* remove_dash_from_identifier *) ++
-      lit ": " ++ ty ++
-      (if has_default f && negb (is_optional (fty f)) then lit " = _"
-       else if is_optional (fty f) then lit " = None" else [])).
-
-(* scala.rs:164 write_struct *)
-Definition sc_write_struct (s : rstruct) : outcome str :=
-  match sfields s with
-  | [] =>
-    Ok (sc_write_comments 0 (scomments s) ++
-        lit "class " ++ renamed (sid s) ++ lit " extends Serializable" ++ sc_nl ++ sc_nl)
-  | _ =>
-    (* split_last: every element but the last is followed by ",\n", the last by "\n" *)
-    do elems <- mapM (sc_write_element (sgenerics s)) (sfields s);
-    Ok (sc_write_comments 0 (scomments s) ++
-        lit "case class " ++ renamed (sid s) ++ sc_generic_parameters (sgenerics s) ++ lit " (" ++ sc_nl ++
-        join (lit "," ++ sc_nl) elems ++ sc_nl ++
-        lit ")" ++ sc_nl ++ sc_nl)
-  end.
-
-(* scala.rs:238 write_enum_variants *)
-Definition sc_write_variant_unit_enum (e : eshared) (v : rvariant) : outcome str :=
-  let sh := variant_shared v in
-  Ok (sc_write_comments 1 (vcomments sh) ++
-      [ch_tab] ++ lit "case object " ++ original (vid sh) ++ lit " extends " ++ renamed (eid e) ++ lit " {" ++ sc_nl ++
-      [ch_tab; ch_tab] ++ lit "val serialName: String = " ++ debug_str (renamed (vid sh)) ++ sc_nl ++
-      [ch_tab] ++ lit "}" ++ sc_nl).
-
-Definition sc_write_variant_algebraic (content_key : str) (e : eshared) (v : rvariant) : outcome str :=
-  let sh := variant_shared v in
-  let printed_value := debug_str (renamed (vid sh)) in
-  (* scala.rs:266-281: a leading ASCII digit gets an underscore in front *)
-  let variant_name := match original (vid sh) with
-                      | c :: _ => if is_adigit c then ch_us :: original (vid sh) else original (vid sh)
-                      | [] => original (vid sh)
-                      end in
-  let gp := sc_generic_parameters (egenerics e) in
-  do decl <- match v with
-             | VUnit _ => Ok ([ch_tab] ++ lit "case object " ++ variant_name)
-             | VTuple t _ =>
-               do variant_type <- sc_format_type (egenerics e) t;
-               Ok ([ch_tab] ++ lit "case class " ++ variant_name ++ gp ++ lit "(" ++
-                   content_key ++ lit ": " ++ variant_type ++ lit ")")
-             | VAnon fields vsh =>
-               (* NB the class referred to is named from id.original, while write_enum (scala.rs:195)
-                  declares it from id.renamed *)
-               Ok ([ch_tab] ++ lit "case class " ++ variant_name ++ gp ++ lit "(" ++
-                   content_key ++ lit ": " ++ original (eid e) ++ original (vid vsh) ++ lit "Inner" ++
-                   sc_generic_parameters (anon_struct_generics (egenerics e) fields) ++ lit ")")
-             end;
-  Ok (sc_write_comments 1 (vcomments sh) ++ decl ++
-      lit " extends " ++ original (eid e) ++ gp ++ lit " {" ++ sc_nl ++
-      [ch_tab; ch_tab] ++ lit "val serialName: String = " ++ printed_value ++ sc_nl ++
-      [ch_tab] ++ lit "}" ++ sc_nl).
-
-Definition sc_write_enum_variants (e : renum) : outcome str :=
-  match e with
-  | EUnit sh => sc_concat (sc_write_variant_unit_enum sh) (evariants sh)
-  | EAlgebraic _ content_key sh => sc_concat (sc_write_variant_algebraic content_key sh) (evariants sh)
-  end.
-
-(* mod.rs:366 write_types_for_anonymous_structs with the closure of scala.rs:194 *)
-Definition sc_write_types_for_anonymous_structs (e : eshared) : outcome str :=
-  sc_concat (fun v => match v with
-                      | VAnon fields vsh =>
-                        sc_write_struct (anon_struct e (renamed (eid e) ++ original (vid vsh) ++ lit "Inner")
-                                                     (original (vid vsh)) fields)
-                      | _ => Ok []
-                      end) (evariants e).
-
-(* scala.rs:192 write_enum (both arms of the match at scala.rs:204 print the same line) *)
-Definition sc_write_enum (e : renum) : outcome str :=
-  let sh := enum_shared e in
-  do anon <- sc_write_types_for_anonymous_structs sh;
-  do vs <- sc_write_enum_variants e;
-  Ok (anon ++
-      sc_write_comments 0 (ecomments sh) ++
-      lit "sealed trait " ++ renamed (eid sh) ++ sc_generic_parameters (egenerics sh) ++ lit " {" ++ sc_nl ++
-      [ch_tab] ++ lit "def serialName: String" ++ sc_nl ++
-      lit "}" ++ sc_nl ++
-      lit "object " ++ renamed (eid sh) ++ lit " {" ++ sc_nl ++
-      vs ++
-      lit "}" ++ sc_nl ++ sc_nl).
 
 (* scala.rs:409 begin_package_object, 420 begin_package: nothing is opened when the package has
    no dot ... *)
@@ -246,11 +422,6 @@ Definition sc_begin_package : str :=
 Definition sc_end_package_object : str := lit "}" ++ sc_nl.
 Definition sc_end_package : str := lit "}" ++ sc_nl.
 
-(* scala.rs:431 write_unsigned_aliases (ULong = Int is what the code says) *)
-Definition sc_write_unsigned_aliases : str :=
-  lit "type UByte = Byte" ++ sc_nl ++ lit "type UShort = Short" ++ sc_nl ++
-  lit "type UInt = Int" ++ sc_nl ++ lit "type ULong = Int" ++ sc_nl ++ sc_nl.
-
 Definition sc_is_empty {A} (l : list A) : bool := match l with [] => true | _ => false end.
 
 (* scala.rs:29 generate_types (the override): begin_file; package object with the unsigned aliases
@@ -264,16 +435,50 @@ Definition sc_generate (pd : parsed) : outcome str :=
   let unsigned_used := sc_unsigned_integer_used pd in
   do package_object <-
     (if unsigned_used || negb (sc_is_empty (p_aliases pd)) then
-       do aliases <- sc_concat sc_write_type_alias (p_aliases pd);
+       do aliases <- sc_concat sc_write_item (map ItAlias (p_aliases pd));
        Ok (sc_begin_package_object ++
-           (if unsigned_used then sc_write_unsigned_aliases else []) ++
+           (if unsigned_used then sc_render_decl sc_unsigned_aliases else []) ++
            aliases ++ sc_end_package_object)
      else Ok []);
   do package <-
     (if negb (sc_is_empty (p_structs pd)) || negb (sc_is_empty (p_enums pd)) then
-       do structs <- sc_concat sc_write_struct (p_structs pd);
-       do enums <- sc_concat sc_write_enum (p_enums pd);
+       do structs <- sc_concat sc_write_item (map ItStruct (p_structs pd));
+       do enums <- sc_concat sc_write_item (map ItEnum (p_enums pd));
        Ok (sc_begin_package ++ structs ++ enums ++ sc_end_package)
      else Ok []);
   Ok (head ++ package_object ++ package).
+
+(* the declarations of a whole file, in output order: (inside the package object, inside the
+   package); same first failure as [sc_generate] (begin_file's panic, then aliases, structs, enums) *)
+Definition sc_decls (pd : parsed) : outcome (list sc_decl * list sc_decl) :=
+  let _ := uc in
+  do _ <- sc_begin_file;
+  let item_decls (its : list ritem) : outcome (list sc_decl) :=
+    do dss <- mapM sc_decl_of its; Ok (List.concat dss) in
+  do aliases <- item_decls (map ItAlias (p_aliases pd));
+  do structs <- item_decls (map ItStruct (p_structs pd));
+  do enums <- item_decls (map ItEnum (p_enums pd));
+  Ok ((if sc_unsigned_integer_used pd then [sc_unsigned_aliases] else []) ++ aliases, structs ++ enums).
+
+(* fd_header: the version line, `package <parent>` and, when they are written (the section is not
+   empty and the package has a dot), `package object <last>` and `package <last>`;
+   fd_imports: the Scala back end imports nothing;
+   fd_decls: helper aliases, aliases (these two inside the package object), then structs, then
+   per enum its helper classes followed by the enum (inside the package);
+   fd_helper_defs: UByte, UShort, UInt, ULong when the alias block is written. *)
+Definition sc_file_decls (pd : parsed) : outcome file_decls :=
+  do r <- sc_decls pd;
+  let '(objs, pkgs) := r in
+  Ok {| fd_header := (if sc_no_version_header cfg then [] else [lit "Generated by typeshare " ++ sc_version cfg]) ++
+                     match sc_rsplit_once sc_ch_dot (sc_package cfg) with
+                     | None => []
+                     | Some (parent, last) =>
+                       [lit "package " ++ parent] ++
+                       (match objs with [] => [] | _ => [lit "package object " ++ last] end) ++
+                       (match pkgs with [] => [] | _ => [lit "package " ++ last] end)
+                     end;
+        fd_imports := [];
+        fd_decls := flat_map sc_obs (objs ++ pkgs);
+        fd_helper_defs := flat_map (fun d => match d with SCHelperAliases l => map fst l | _ => [] end) objs |}.
 End SC.
+
